@@ -36,12 +36,18 @@ func dirSnapshot(dir string) string {
 	return sb.String()
 }
 
+// lockSnapshot: the data directory and the merge directory beside it (a finished merge waits there for
+// the next Open; a rejected Open must not adopt it)
+func (r *EngineRunner) lockSnapshot() string {
+	return dirSnapshot(r.dir()) + "|" + dirSnapshot(r.mergeDir())
+}
+
 func (r *EngineRunner) execLock(f []string) string {
 	switch f[1] {
 	case "open2":
-		before := dirSnapshot(r.dir())
+		before := r.lockSnapshot()
 		db2, err := kv.Open(parseOpts(f[2:], r.dir()))
-		after := dirSnapshot(r.dir())
+		after := r.lockSnapshot()
 		if err == nil {
 			r.fail("C16", "a second Open of a directory that is open succeeded")
 			_ = db2.Close()
@@ -52,9 +58,9 @@ func (r *EngineRunner) execLock(f []string) string {
 		}
 		return "err " + EngErr(err)
 	case "openchild":
-		before := dirSnapshot(r.dir())
+		before := r.lockSnapshot()
 		out := runChildOpen(r.dir(), f[2:], 0)
-		after := dirSnapshot(r.dir())
+		after := r.lockSnapshot()
 		if strings.HasPrefix(out, "ok") && r.db != nil {
 			r.fail("C16", "another process opened a directory that is open here")
 		}
